@@ -109,7 +109,10 @@ def covered : List Body :=
    VaxisModel.Gen.TermBodies.body_dch, VaxisModel.Gen.TermBodies.body_scrollUp, VaxisModel.Gen.TermBodies.body_scrollDown,
    VaxisModel.Gen.TermBodies.body_ich, VaxisModel.Gen.TermBodies.body_print,
    VaxisModel.Gen.TermBodies.body_rep, VaxisModel.Gen.TermBodies.body_cht, VaxisModel.Gen.TermBodies.body_cbt,
-   VaxisModel.Gen.TermBodies.body_tbc, VaxisModel.Gen.TermBodies.body_hts, VaxisModel.Gen.TermBodies.body_resize]
+   VaxisModel.Gen.TermBodies.body_tbc, VaxisModel.Gen.TermBodies.body_hts, VaxisModel.Gen.TermBodies.body_resize,
+   VaxisModel.Gen.TermBodies.body_decsc, VaxisModel.Gen.TermBodies.body_decrc, VaxisModel.Gen.TermBodies.body_ris,
+   VaxisModel.Gen.TermBodies.body_setDefaultTabStops, VaxisModel.Gen.TermBodies.body_sm, VaxisModel.Gen.TermBodies.body_rm,
+   VaxisModel.Gen.TermBodies.body_decset, VaxisModel.Gen.TermBodies.body_decrst, VaxisModel.Gen.TermBodies.body_decrqm]
 
 /-! Tactics: `body_norm` evaluates `evalBody` on a concrete body (first the interpreter itself, with
 the comparisons still folded so that their `Decidable` instances are built from normalised
